@@ -180,3 +180,193 @@ Proof.
   - vm_compute. reflexivity.
   - vm_compute. discriminate.
 Qed.
+
+(* ================================================================ the same model as the fault-free execution *)
+
+(* Faults never change what the model holds: the history with its faults and the same history
+   without any reach configurations with the same items (the files differ, until an update
+   succeeds).  So "exactly the current state" after the retry is also "exactly the state the
+   fault-free execution is in". *)
+Definition beq (b b' : backends) : Prop :=
+  (forall x, b_items b x = b_items b' x) /\ (forall x, b_add b x = b_add b' x) /\
+  (forall x, b_del b x = b_del b' x) /\ b_def b = b_def b'.
+Definition heq (h h' : hosts) : Prop :=
+  (forall x, h_items h x = h_items h' x) /\ (forall x, h_add h x = h_add h' x) /\ (forall x, h_del h x = h_del h' x).
+Definition teq (t t' : tcps) : Prop := forall x, t_items t x = t_items t' x.
+Definition ceq (c c' : config) : Prop :=
+  beq (c_b c) (c_b c') /\ heq (c_h c) (c_h c') /\ teq (c_t c) (c_t c') /\ c_glob c = c_glob c'.
+(* only what Commit keeps *)
+Definition ieq (c c' : config) : Prop :=
+  (forall x, b_items (c_b c) x = b_items (c_b c') x) /\ b_def (c_b c) = b_def (c_b c') /\
+  (forall x, h_items (c_h c) x = h_items (c_h c') x) /\ (forall x, t_items (c_t c) x = t_items (c_t c') x) /\
+  c_glob c = c_glob c'.
+
+Lemma ieq_clean_ceq : forall c c', clean c -> clean c' -> ieq c c' -> ceq c c'.
+Proof.
+  intros c c' [A [D [_ [Ha [Hd _]]]]] [A' [D' [_ [Ha' [Hd' _]]]]] [I1 [I2 [I3 [I4 I5]]]].
+  repeat split; auto; intros x; congruence.
+Qed.
+Lemma ceq_ieq : forall c c', ceq c c' -> ieq c c'.
+Proof. intros c c' [[B1 [_ [_ B4]]] [[H1 _] [T G]]]. repeat split; auto. Qed.
+
+Lemma beq_remove1 : forall e b b' x, beq b b' -> beq (backs_remove1 e b x) (backs_remove1 e b' x).
+Proof.
+  intros e b b' x [I [A [D F]]]. unfold backs_remove1. rewrite <- I. destruct (b_items b x) eqn:E.
+  - repeat split; cbn; auto.
+    + intros y. unfold fdel. rewrite I. reflexivity.
+    + intros y. unfold fset. rewrite D. reflexivity.
+    + rewrite F. reflexivity.
+  - repeat split; auto.
+Qed.
+Lemma beq_remove : forall e l b b', beq b b' -> beq (backs_remove e b l) (backs_remove e b' l).
+Proof. unfold backs_remove. induction l; cbn; intros; auto. apply IHl. apply beq_remove1; auto. Qed.
+Lemma beq_acquire : forall e b b' x c, beq b b' -> beq (backs_acquire e b x c) (backs_acquire e b' x c).
+Proof.
+  intros e b b' x c [I [A [D F]]]. unfold backs_acquire. rewrite <- I. destruct (b_items b x) eqn:E.
+  - repeat split; auto.
+  - repeat split; cbn; auto; intros y; unfold fset; [rewrite I|rewrite A]; reflexivity.
+Qed.
+Lemma heq_remove1 : forall h h' x, heq h h' -> heq (hosts_remove1 h x) (hosts_remove1 h' x).
+Proof.
+  intros h h' x [I [A D]]. unfold hosts_remove1. rewrite <- I. destruct (h_items h x) eqn:E.
+  - repeat split; cbn; auto; intros y; [unfold fdel; rewrite I|unfold fset; rewrite D]; reflexivity.
+  - repeat split; auto.
+Qed.
+Lemma heq_remove : forall l h h', heq h h' -> heq (hosts_remove h l) (hosts_remove h' l).
+Proof. unfold hosts_remove. induction l; cbn; intros; auto. apply IHl. apply heq_remove1; auto. Qed.
+Lemma heq_acquire : forall h h' x c, heq h h' -> heq (hosts_acquire h x c) (hosts_acquire h' x c).
+Proof.
+  intros h h' x c [I [A D]]. unfold hosts_acquire. rewrite <- I. destruct (h_items h x) eqn:E.
+  - repeat split; auto.
+  - repeat split; cbn; auto; intros y; unfold fset; [rewrite I|rewrite A]; reflexivity.
+Qed.
+Lemma teq_remove1 : forall t t' x, teq t t' -> teq (tcps_remove1 t x) (tcps_remove1 t' x).
+Proof.
+  intros t t' x I. unfold tcps_remove1. rewrite <- I. destruct (t_items t x) eqn:E; auto.
+  intros y. cbn. unfold fdel. rewrite I. reflexivity.
+Qed.
+Lemma teq_remove : forall l t t', teq t t' -> teq (tcps_remove t l) (tcps_remove t' l).
+Proof. unfold tcps_remove. induction l; cbn; intros; auto. apply IHl. apply teq_remove1; auto. Qed.
+Lemma teq_acquire : forall t t' x c, teq t t' -> teq (tcps_acquire t x c) (tcps_acquire t' x c).
+Proof.
+  intros t t' x c I. unfold tcps_acquire. rewrite <- I. destruct (t_items t x) eqn:E; auto.
+  intros y. cbn. unfold fset. rewrite I. reflexivity.
+Qed.
+
+Lemma ceq_apply_op : forall e c c' o, ceq c c' -> ceq (apply_op e c o) (apply_op e c' o).
+Proof.
+  intros e c c' o [B [H [T G]]]. destruct o; cbn.
+  - (* clear *) destruct B as [I _]. repeat split; cbn; auto.
+  - repeat split; cbn; auto; try apply B; try apply H.
+  - split; [exact B|]. split; [exact H|]. split; [apply teq_remove; auto|exact G].
+  - split; [exact B|]. split; [apply heq_remove; auto|]. split; auto.
+  - split; [apply beq_remove; auto|]. split; auto.
+  - split; [apply beq_acquire; auto|]. split; auto.
+  - split; [exact B|]. split; [apply heq_acquire; auto|]. split; auto.
+  - split; [exact B|]. split; [exact H|]. split; [apply teq_acquire; auto|exact G].
+  - destruct B as [I [A [D F]]]. repeat split; cbn; auto; apply H.
+Qed.
+Lemma ceq_apply_ops : forall e l c c', ceq c c' -> ceq (apply_ops e c l) (apply_ops e c' l).
+Proof. unfold apply_ops. induction l; cbn; intros; auto. apply IHl. apply ceq_apply_op; auto. Qed.
+
+Lemma ceq_shrink : forall e e' c c', ceq c c' -> ceq (config_shrink e c) (config_shrink e' c').
+Proof.
+  intros e e' c c' [[I [A [D F]]] [[Hi [Ha Hd]] [T G]]].
+  assert (Mb : forall x, bmatch (c_b c) x = bmatch (c_b c') x) by (intros x; unfold bmatch; rewrite A, D; reflexivity).
+  assert (Mh : forall x, hmatch (c_h c) x = hmatch (c_h c') x) by (intros x; unfold hmatch; rewrite Ha, Hd; reflexivity).
+  repeat split; cbn; auto; intros x; rewrite ?Mb, ?Mh, ?I, ?A, ?D, ?Hi, ?Ha, ?Hd; reflexivity.
+Qed.
+
+Lemma ready_ieq : forall dn c c', ieq c c' -> ready dn c -> ready dn c'.
+Proof.
+  intros dn c c' [I1 [I2 [I3 [I4 I5]]]] [R1 R2]. split.
+  - rewrite <- I2, <- I1. exact R1.
+  - intros h hc b Hh Hr. rewrite <- I1. apply (R2 h hc b); auto. rewrite I3. exact Hh.
+Qed.
+
+(* what the model holds after an update does not depend on the faults *)
+Lemma update_items : forall e fs s,
+  ieq (i_cfg (fst (update_f e fs s))) (config_shrink e (i_cfg s)).
+Proof.
+  intros e fs s. destruct (update_f_shape e fs s) as [c [d [cl [r [p [U [Hb [Hh [Ht [Hg _]]]]]]]]]].
+  rewrite U. cbn [fst mk_inst i_cfg]. unfold ieq. cbn [config_commit c_b c_h c_t c_glob backs_commit hosts_commit b_items b_def h_items t_items].
+  rewrite Hb, Hh, Ht, Hg. unfold pre_cfg. destruct (i_failed s); cbn; repeat split; auto.
+Qed.
+Lemma ieq_trans : forall a b c, ieq a b -> ieq b c -> ieq a c.
+Proof. intros a b c [A1 [A2 [A3 [A4 A5]]]] [B1 [B2 [B3 [B4 B5]]]]. repeat split; intros; congruence. Qed.
+Lemma ieq_sym : forall a b, ieq a b -> ieq b a.
+Proof. intros a b [A1 [A2 [A3 [A4 A5]]]]. repeat split; intros; congruence. Qed.
+
+Lemma step_ieq : forall e fs fs' s s' l, clean (i_cfg s) -> clean (i_cfg s') -> ieq (i_cfg s) (i_cfg s') ->
+  ieq (i_cfg (fst (step_f e fs s l))) (i_cfg (fst (step_f e fs' s' l))).
+Proof.
+  intros e fs fs' s s' l C C' I. unfold step_f.
+  apply (ieq_trans _ (config_shrink e (i_cfg (sync e s l)))); [apply update_items|].
+  apply (ieq_trans _ (config_shrink e (i_cfg (sync e s' l)))); [|apply ieq_sym; apply update_items].
+  apply ceq_ieq. apply ceq_shrink. cbn [sync i_cfg]. apply ceq_apply_ops. apply ieq_clean_ceq; auto.
+Qed.
+
+Definition erase (h : list (list op * list fpoint)) : list (list op * list fpoint) := map (fun st => (fst st, [])) h.
+
+Lemma wf_batch_ieq : forall e dn c c' l, clean c -> clean c' -> ieq c c' -> wf_batch e dn c l -> wf_batch e dn c' l.
+Proof.
+  intros e dn c c' l C C' I [S [O R]]. split; auto. split; auto.
+  apply (ready_ieq dn (apply_ops e c l)); auto. apply ceq_ieq. apply ceq_apply_ops. apply ieq_clean_ceq; auto.
+Qed.
+
+Lemma erase_follows : forall e dn, shard_range e -> forall h s s', reach e dn s -> reach e dn s' ->
+  ieq (i_cfg s) (i_cfg s') -> wf_hist e dn s h ->
+  wf_hist e dn s' (erase h) /\ ieq (i_cfg (run_f e s h)) (i_cfg (run_f e s' (erase h))) /\
+  reach e dn (run_f e s h) /\ reach e dn (run_f e s' (erase h)).
+Proof.
+  intros e dn SR. induction h as [|[l fs] h IH]; cbn [wf_hist erase map run_f fold_left fst snd]; intros s s' R R' I W.
+  - auto.
+  - destruct W as [W1 W2].
+    assert (C : clean (i_cfg s)) by apply R. assert (C' : clean (i_cfg s')) by apply R'.
+    assert (W1' : wf_batch e dn (i_cfg s') l) by (apply (wf_batch_ieq e dn (i_cfg s)); auto).
+    assert (R1 : reach e dn (fst (step_f e fs s l))) by (apply step_reach; auto).
+    assert (R1' : reach e dn (fst (step_f e [] s' l))) by (apply step_reach; auto).
+    assert (I1 : ieq (i_cfg (fst (step_f e fs s l))) (i_cfg (fst (step_f e [] s' l)))) by (apply step_ieq; auto).
+    destruct (IH _ _ R1 R1' I1 W2) as [A [B [Cc D]]]. fold (erase h) in *.
+    split; [split; auto|]. split; auto.
+Qed.
+
+Lemma disk_ok_ieq : forall e c c' d, ieq c c' -> disk_ok e c d -> disk_ok e c' d.
+Proof.
+  intros e c c' d [I1 [I2 [I3 [I4 I5]]]] O.
+  assert (Er : forall h, rssl c' h = rssl c h) by (apply rssl_ext; intros; symmetry; auto).
+  destruct O as [O1 [m [M1 [M2 [M3 M4]]]] O3 O4 O5 O6 O7 O8 O9]. constructor.
+  - intros j x. rewrite O1. rewrite I1. reflexivity.
+  - exists m. split; auto. split; [congruence|]. split; [congruence|]. intros t. rewrite M4. apply I4.
+  - intros h. rewrite O3. apply I3.
+  - intros h. rewrite O4. apply I3.
+  - intros h. rewrite O5. apply I3.
+  - intros h. rewrite O6. symmetry. apply Er.
+  - intros x bc Hx. apply O7. rewrite I1. exact Hx.
+  - intros t. rewrite O8. apply I4.
+  - intros t. rewrite O9. rewrite (port_tls_ext e _ _ (tport t) I4). rewrite I4. reflexivity.
+Qed.
+
+(* After the retry, the files (and the reloaded haproxy) of the execution that suffered the
+   faults are exactly the state in which the execution without any fault is - whose own
+   files are exactly that state too. *)
+Theorem retry_equals_fault_free : forall e dn, shard_range e ->
+  forall h, wf_hist e dn inst_empty h ->
+  forall l, wf_batch e dn (i_cfg (run_f e inst_empty h)) l ->
+    let faulty := fst (step_f e [] (run_f e inst_empty h) l) in
+    let faultfree := fst (step_f e [] (run_f e inst_empty (erase h)) l) in
+    disk_ok e (i_cfg faultfree) (i_disk faulty) /\ disk_ok e (i_cfg faultfree) (i_disk faultfree) /\
+    (inline e = true -> exists r, i_running faulty = Some r /\ disk_ok e (i_cfg faultfree) r).
+Proof.
+  intros e dn SR h W l Wl faulty faultfree.
+  assert (I0 : ieq (i_cfg inst_empty) (i_cfg inst_empty)) by (repeat split; auto).
+  destruct (erase_follows e dn SR h inst_empty inst_empty (reach_empty e dn) (reach_empty e dn) I0 W) as [W' [I [R R']]].
+  assert (C : clean (i_cfg (run_f e inst_empty h))) by apply R.
+  assert (C' : clean (i_cfg (run_f e inst_empty (erase h)))) by apply R'.
+  assert (Wl' : wf_batch e dn (i_cfg (run_f e inst_empty (erase h))) l) by (apply (wf_batch_ieq e dn (i_cfg (run_f e inst_empty h))); auto).
+  destruct (retry_converges e dn SR h W l Wl) as [_ [_ [D Rn]]].
+  destruct (retry_converges e dn SR (erase h) W' l Wl') as [_ [_ [D' _]]].
+  assert (I1 : ieq (i_cfg faulty) (i_cfg faultfree)) by (apply step_ieq; auto).
+  split; [apply (disk_ok_ieq e (i_cfg faulty)); auto|]. split; [exact D'|].
+  intros Inl. destruct (Rn Inl) as [r [Hr Dr]]. exists r. split; auto. apply (disk_ok_ieq e (i_cfg faulty)); auto.
+Qed.
